@@ -148,6 +148,14 @@ def run_basic(c):
             return ck.result() + [z for z in (f, g) if z]
         ck.check(C.peq_all(u.array, w.array, 2, 1e-9), "rotation3:additive")
         ck.check(C.peq_all(t.inverse().array, rotation(-a, axis).array, 2, 1e-9), "rotation3:inverse")
+        if c["form"] == "tuple":
+            # a finite axis point is a projective point: any other representative (negative, complex factor) is the same axis
+            for fac in (-2.0, 0.5, 1j, 1 - 2j):
+                t2, f = call("rotation(axis)", rotation, a, Point(np.asarray(axis.array) * fac))
+                if f:
+                    ck.add(f)
+                else:
+                    ck.check(C.peq_all(t2.array, M, 2, 1e-9) and np.all(np.abs(np.imag(t2.array)) < 1e-9), "rotation3:representative-of-the-axis-point", (str(fac), np.asarray(t2.array).tolist()))
         return ck.result()
     if what == "scaling":
         d = 2 + (v[15] % 2)
